@@ -122,7 +122,14 @@ fn run(op: &str, a: &[String]) -> String {
         }
         "ntypes" => NUM_TYPES.to_string(),
         _ => {
-            let tid: usize = a[0].parse().unwrap();
+            let tid: usize = if a[0] == "-" {
+                match tid_of_term(&a[1]) {
+                    Some(t) => t,
+                    None => return "BADTYPE".to_string(),
+                }
+            } else {
+                a[0].parse().unwrap()
+            };
             let s: Vec<BFieldElement> = tfh::u64s(&a[2..]).into_iter().map(BFieldElement::new).collect();
             dispatch(tid, op, &s)
         }
